@@ -362,3 +362,28 @@ class MinBaseMask(Contract):
 
 
 REGISTRY.append(MinBaseMask())
+
+
+class NubWiring(Contract):
+    """C01 for a 0-D partition: the mean and the unweighted count are exactly what the cube
+    carries; empty iff the unweighted count is not a positive number"""
+
+    name = MOD + ":_Nub.means / unweighted_count / is_empty"
+    props = ("C01",)
+
+    def run(self, B, cfg):
+        m = B.real("mean", maybe_nan=True)
+        n = B.real("n", maybe_nan=True)
+        cube = B.stub("cube", means=m, unweighted_counts=n)
+        nub = B.new(MOD + ":_Nub", cube, {})
+        B.check("means", nub.means is m)
+        B.check("unweighted_count", nub.unweighted_count is n)
+        B.check("table_name", nub.table_name is None)
+        if B.mode == "C":
+            # math.isnan() is outside the symbolic facade: checked on concrete replays only
+            import math
+
+            B.check("is_empty", bool(nub.is_empty) == bool(math.isnan(n) or n <= 0))
+
+
+REGISTRY.append(NubWiring())
